@@ -46,7 +46,23 @@ pub(super) fn compile_match_plan(
         let correlated_with_outer =
             pattern_uses_outer_bindings(&pattern, &known_bindings, predicates);
 
-        if join_via_bound_node || join_via_bound_relationship || correlated_with_outer {
+        // A bound node variable anywhere in the pattern must constrain it: expand on top of the
+        // existing rows (the hops check bound aliases) instead of joining an independent component.
+        let mentions_bound_node = pattern.elements.iter().any(|element| match element {
+            crate::ast::PathElement::Node(n) => n.variable.as_ref().is_some_and(|v| {
+                matches!(
+                    known_bindings.get(v),
+                    Some(BindingKind::Node | BindingKind::Unknown)
+                )
+            }),
+            _ => false,
+        });
+
+        if join_via_bound_node
+            || join_via_bound_relationship
+            || correlated_with_outer
+            || mentions_bound_node
+        {
             // Join via expansion (bound start node) or via already-bound relationship variable.
             plan = Some(compile_pattern_chain(
                 plan,
